@@ -3,6 +3,7 @@ package values
 import (
 	"encoding/json"
 	"fmt"
+	"math"
 	"reflect"
 	"strconv"
 	"time"
@@ -60,7 +61,8 @@ func convertValueToFloat(value any, typ reflect.Type) (float64, error) {
 	// case int is handled by rv.Convert(typ) in Convert function
 	case string:
 		v, err := strconv.ParseFloat(value, 64)
-		if err != nil {
+		// ("nan", "inf" and "infinity" parse, but do not spell a number)
+		if err != nil || math.IsNaN(v) || math.IsInf(v, 0) {
 			return 0, conversionError("", value, typ)
 		}
 		return v, nil
